@@ -18,12 +18,12 @@ import (
 	"github.com/vektah/gqlparser/v2/parser"
 	"github.com/vektah/gqlparser/v2/validator"
 
+	"verif/internal/deferm"
 	"verif/internal/diffrun"
 	"verif/internal/drive"
 	"verif/internal/ev"
 	"verif/internal/opgen"
 	"verif/internal/ref"
-	"verif/internal/sjson"
 	"verif/internal/univ"
 	"verif/work/farm/cur/registry"
 )
@@ -197,27 +197,27 @@ func runOp(rep *ev.Reporter, env *univ.Env, srv *drive.Server, name string, opSe
 						rep.Inconclusive("payload sequence did not end within the watchdog: " + op.Query)
 						continue
 					}
-					sig, why, info := judge(want, got)
+					sig, why, info := deferm.Judge(want, got)
 					if why != "" {
-						rep.Violate(sig, map[string]any{"case": cid, "why": why, "payloads": describe(got), "plain": want.Data.Render(), "plain_errors": want.Errors})
+						rep.Violate(sig, map[string]any{"case": cid, "why": why, "payloads": deferm.Describe(got), "plain": want.Data.Render(), "plain_errors": want.Errors})
 					}
-					if info.incremental > 0 {
+					if info.Incremental > 0 {
 						rep.Distinct("deferred_cases", fmt.Sprintf("%s|%s|%d|%d", name, op.Query, pi, sm))
-						rep.Count("incremental_payloads", int64(info.incremental))
-						rep.Count("groups_delivered_null", int64(info.nullGroups))
-						rep.Count("groups_nested_in_groups", int64(info.nested))
-						rep.Count("groups_inside_lists", int64(info.inLists))
-						rep.Count("groups_with_label", int64(info.labelled))
-						rep.Count("errors_in_incremental_payloads", int64(info.incErrors))
+						rep.Count("incremental_payloads", int64(info.Incremental))
+						rep.Count("groups_delivered_null", int64(info.NullGroups))
+						rep.Count("groups_nested_in_groups", int64(info.Nested))
+						rep.Count("groups_inside_lists", int64(info.InLists))
+						rep.Count("groups_with_label", int64(info.Labelled))
+						rep.Count("errors_in_incremental_payloads", int64(info.IncErrors))
 						rep.Count("runs_schedule_"+schedNames[sm], 1)
-						rep.Distinct("arrival_orders", fmt.Sprintf("%s|%s|%d|%s", name, op.Query, pi, info.order))
-						if info.strict {
+						rep.Distinct("arrival_orders", fmt.Sprintf("%s|%s|%d|%s", name, op.Query, pi, info.Order))
+						if info.Strict {
 							rep.Count("cases_compared_exactly", 1)
 						} else {
 							rep.Count("cases_compared_modulo_group_null_stop", 1)
 						}
 						if pi == 1 && sm == 3 {
-							rep.Sample(map[string]any{"probe": name, "query": op.Query, "variables": op.Vars, "payloads": describe(got)})
+							rep.Sample(map[string]any{"probe": name, "query": op.Query, "variables": op.Vars, "payloads": deferm.Describe(got)})
 						}
 					} else {
 						rep.Count("runs_without_incremental_payload", 1)
@@ -231,319 +231,4 @@ func runOp(rep *ev.Reporter, env *univ.Env, srv *drive.Server, name string, opSe
 			}
 		}
 	}
-}
-
-type info struct {
-	incremental, nullGroups, nested, inLists, labelled, incErrors, underNulled int
-	strict                                                                     bool
-	order                                                                      string
-}
-
-func describe(got *drive.Real) []map[string]any {
-	var out []map[string]any
-	for _, p := range got.Payloads {
-		m := map[string]any{"data": string(p.Raw), "path": p.Path, "label": p.Label, "errors": p.Errors}
-		if p.HasNext != nil {
-			m["hasNext"] = *p.HasNext
-		}
-		out = append(out, m)
-	}
-	return out
-}
-
-func pathKey(p []any) string {
-	var sb strings.Builder
-	for _, e := range p {
-		fmt.Fprintf(&sb, "/%v", e)
-	}
-	return sb.String()
-}
-
-// judge applies the client model. It returns a known-finding signature (or ""), a violation text
-// (or ""), and observation counters.
-func judge(want *ref.Result, got *drive.Real) (string, string, info) {
-	var in info
-	nulledSig, nulledWhy := "", ""
-	if len(got.Payloads) == 0 {
-		return "", "no payload at all", in
-	}
-	first := got.Payloads[0]
-	if !first.ParseOK || first.Data == nil {
-		return "", "initial payload has no valid data", in
-	}
-	merged := first.Data
-	allErrs := append([]ref.ErrExp{}, first.Errors...)
-	seen := map[string]bool{}
-	delivered := map[string]bool{} // paths of groups already delivered (object paths)
-	var nullGroupPaths []string
-	var unresolved []int
-	n := len(got.Payloads)
-	var orderSB strings.Builder
-	for i, p := range got.Payloads {
-		// hasNext discipline
-		if n > 1 {
-			if p.HasNext == nil {
-				return "", fmt.Sprintf("payload %d of %d carries no hasNext", i, n), in
-			}
-			if i < n-1 && !*p.HasNext {
-				return "", fmt.Sprintf("hasNext is false on non-final payload %d of %d", i, n), in
-			}
-			if i == n-1 && *p.HasNext {
-				return "", "hasNext is true on the final payload", in
-			}
-		} else if p.HasNext != nil && *p.HasNext {
-			return "", "single payload with hasNext true", in
-		}
-		if i == 0 {
-			continue
-		}
-		in.incremental++
-		if !p.ParseOK {
-			return "", fmt.Sprintf("incremental payload %d is not valid JSON", i), in
-		}
-		k := pathKey(p.Path) + "|" + p.Label
-		orderSB.WriteString(k + ";")
-		if seen[k] {
-			return "", "deferred group delivered twice: path " + pathKey(p.Path) + " label " + p.Label, in
-		}
-		seen[k] = true
-		if p.Label != "" {
-			in.labelled++
-		}
-		for _, e := range p.Path {
-			if _, ok := e.(int); ok {
-				in.inLists++
-				break
-			}
-		}
-		for d := range delivered {
-			if strings.HasPrefix(pathKey(p.Path), d+"/") {
-				in.nested++
-				break
-			}
-		}
-		in.incErrors += len(p.Errors)
-		allErrs = append(allErrs, p.Errors...)
-		// the path must resolve to a non-null object in what the client has so far
-		target := resolve(merged, p.Path)
-		if target == nil || target.Kind != sjson.Object {
-			unresolved = append(unresolved, i)
-			continue
-		}
-		delivered[pathKey(p.Path)] = true
-		if p.Data == nil || p.Data.Kind == sjson.Null {
-			in.nullGroups++
-			nullGroupPaths = append(nullGroupPaths, pathKey(p.Path))
-			continue
-		}
-		if p.Data.Kind != sjson.Object {
-			return "", fmt.Sprintf("incremental payload %d data is neither an object nor null", i), in
-		}
-		for _, m := range p.Data.Members {
-			setMember(target, m.Key, m.Val)
-		}
-	}
-	in.order = orderSB.String()
-	// payloads whose path could not be found when they arrived
-	for _, i := range unresolved {
-		p := got.Payloads[i]
-		if t := resolve(merged, p.Path); t != nil && t.Kind == sjson.Object {
-			return "nested-deferred-group-before-parent", fmt.Sprintf("incremental payload %d (path %s, label %q) arrived before the payload that delivers its object", i, pathKey(p.Path), p.Label), in
-		}
-		// the object never reaches the client: an ancestor was removed by null propagation after
-		// the group had been started
-		if nullAncestor(merged, p.Path) {
-			in.underNulled++
-			nulledSig = "deferred-group-delivered-under-nulled-ancestor"
-			nulledWhy = fmt.Sprintf("incremental payload %d (path %s, label %q) belongs to an object that null propagation removed from the response: a client can never find its path", i, pathKey(p.Path), p.Label)
-			continue
-		}
-		return "", fmt.Sprintf("incremental payload %d (path %s, label %q): path does not resolve to an object in the merged data", i, pathKey(p.Path), p.Label), in
-	}
-	// no error that the plain execution would not report; errors the plain execution reports but the
-	// deferred execution does not must lie in a part of the response that is null for the client
-	if why := errorsSubset(want.Errors, allErrs, merged); why != "" {
-		return "", why, in
-	}
-	if len(nullGroupPaths) == 0 {
-		in.strict = true
-		if d := sjson.Diff(want.Data, merged, true, "data"); d != "" {
-			return "", "merged result differs from the plain result: " + d, in
-		}
-		return nulledSig, nulledWhy, in
-	}
-	if d := refines(want.Data, merged, "", nullGroupPaths); d != "" {
-		return "", "merged result is not explained by the plain result plus null propagation stopping at a deferred group's object: " + d, in
-	}
-	return nulledSig, nulledWhy, in
-}
-
-// nullAncestor reports whether some proper prefix of path resolves to null in root.
-func nullAncestor(root *sjson.Value, path []any) bool {
-	if root == nil || root.Kind == sjson.Null {
-		return true
-	}
-	for l := 1; l <= len(path); l++ {
-		v := resolve(root, path[:l])
-		if v != nil && v.Kind == sjson.Null {
-			return true
-		}
-		if v == nil {
-			return false
-		}
-	}
-	return false
-}
-
-// errorsSubset: every reported error is one the plain execution reports (multiset); every error the
-// plain execution reports that is missing lies under a null of the merged data.
-func errorsSubset(plain, got []ref.ErrExp, merged *sjson.Value) string {
-	count := map[string]int{}
-	for _, e := range plain {
-		count[e.String()]++
-	}
-	for _, e := range got {
-		if count[e.String()] == 0 {
-			return "an error is reported that the plain execution does not report: " + e.String()
-		}
-		count[e.String()]--
-	}
-	for _, e := range plain {
-		if count[e.String()] > 0 {
-			count[e.String()]--
-			if !nullAncestor(merged, parsePath(e.Path)) {
-				return "an error of the plain execution is missing although its position is not inside a null part of the merged result: " + e.String()
-			}
-		}
-	}
-	return ""
-}
-
-// parsePath turns "a.b[0].c" back into path elements.
-func parsePath(s string) []any {
-	var out []any
-	cur := ""
-	flush := func() {
-		if cur != "" {
-			out = append(out, cur)
-			cur = ""
-		}
-	}
-	for i := 0; i < len(s); i++ {
-		switch s[i] {
-		case '.':
-			flush()
-		case '[':
-			flush()
-			j := strings.IndexByte(s[i:], ']')
-			if j < 0 {
-				return out
-			}
-			n := 0
-			fmt.Sscanf(s[i+1:i+j], "%d", &n)
-			out = append(out, n)
-			i += j
-		default:
-			cur += string(s[i])
-		}
-	}
-	flush()
-	return out
-}
-
-func resolve(root *sjson.Value, path []any) *sjson.Value {
-	cur := root
-	for _, e := range path {
-		if cur == nil {
-			return nil
-		}
-		switch v := e.(type) {
-		case string:
-			cur = cur.Get(v)
-		case int:
-			if cur.Kind != sjson.Array || v < 0 || v >= len(cur.Arr) {
-				return nil
-			}
-			cur = cur.Arr[v]
-		}
-	}
-	return cur
-}
-
-func setMember(obj *sjson.Value, key string, val *sjson.Value) {
-	for i := range obj.Members {
-		if obj.Members[i].Key == key {
-			obj.Members[i].Val = val
-			return
-		}
-	}
-	obj.Members = append(obj.Members, sjson.Member{Key: key, Val: val})
-}
-
-// refines checks merged m against plain p: wherever p is non-null, m must agree; where p is null,
-// m may be null, or non-null provided a null-delivered group lives at or below that position.
-func refines(p, m *sjson.Value, at string, nullGroups []string) string {
-	if p == nil || m == nil {
-		if p == m {
-			return ""
-		}
-		return at + ": member present on one side only"
-	}
-	if p.Kind == sjson.Null {
-		if m.Kind == sjson.Null {
-			return ""
-		}
-		for _, g := range nullGroups {
-			if g == at || strings.HasPrefix(g, at+"/") || (at == "" && true) {
-				if g == at || strings.HasPrefix(g, at+"/") {
-					return ""
-				}
-			}
-		}
-		return at + ": plain result is null but the merged result has a value, and no null-delivered group explains it"
-	}
-	if m.Kind == sjson.Null {
-		// a placeholder of a null-delivered group directly at the parent is legitimate
-		parent := at
-		if i := strings.LastIndex(parent, "/"); i >= 0 {
-			parent = parent[:i]
-		}
-		for _, g := range nullGroups {
-			if g == parent {
-				return ""
-			}
-		}
-		return at + ": plain result has a value but the merged result is null"
-	}
-	if p.Kind != m.Kind {
-		return at + ": kinds differ"
-	}
-	switch p.Kind {
-	case sjson.Array:
-		if len(p.Arr) != len(m.Arr) {
-			return at + ": list lengths differ"
-		}
-		for i := range p.Arr {
-			if d := refines(p.Arr[i], m.Arr[i], fmt.Sprintf("%s/%d", at, i), nullGroups); d != "" {
-				return d
-			}
-		}
-	case sjson.Object:
-		if len(p.Members) != len(m.Members) {
-			return at + ": member counts differ"
-		}
-		for i := range p.Members {
-			if p.Members[i].Key != m.Members[i].Key {
-				return at + ": member order differs"
-			}
-			if d := refines(p.Members[i].Val, m.Members[i].Val, at+"/"+p.Members[i].Key, nullGroups); d != "" {
-				return d
-			}
-		}
-	default:
-		if d := sjson.Diff(p, m, true, at); d != "" {
-			return d
-		}
-	}
-	return ""
 }
